@@ -1,6 +1,135 @@
-(* Properties_C14.v — placeholder while the proofs are being developed *)
-From BS Require Import Base ChronoSpec ChronoModel.
+(* Properties_C14.v — C14: ISO-8601 text of times and durations is calendar-correct and parses back
+   exactly.  Statements only; proofs in Chrono*.v.
+
+   Model: ChronoModel.v (mirror of convert_chrono.h / bin_timestamp.h).  Spec: ChronoSpec.v (leap rule,
+   month lengths, next_day, closed-form day count, ISO text).  c14_rep: the representations the property
+   quantifies over (int64 for every precision, int32 for seconds and coarser).  rep3: int64, int32, uint64.
+
+   Where the faithful model falsifies the full-strength statement, the statement is kept, a kernel-
+   evaluated witness refutes it (_refuted) and the same statement is proved outside a decidable class of
+   counts (_outside):
+     rt_defect      F30 first partial calendar day of the range (start of the floor day not representable)
+                    or a year of 16+ digits (32-byte buffer / days + 719468 overflow)
+     print_defect   rt_defect, or an instant of the years -999..-1 (F31, printed with three digits) *)
+From BS Require Import Base ChronoSpec ChronoModel ChronoArith ChronoDecimal ChronoSweep ChronoCalendar ChronoYear
+  ChronoSafe ChronoSafeAdd ChronoText ChronoTp ChronoTpParse ChronoTpRt ChronoTs ChronoRefute.
 Local Open Scope Z_scope.
-Example T_C14_epoch : civil_from_days 0 = (1970, 1, 1).
-Proof. vm_compute. reflexivity. Qed.
-Print Assumptions T_C14_epoch.
+
+(* ---- calendar: anchor + successor law over all of Z (Hinnant's civil_from_days, truncating division) ---- *)
+Theorem T_C14_civil :
+  civil_from_days 0 = (1970, 1, 1) /\ forall z, civil_from_days (z + 1) = next_day (civil_from_days z).
+Proof. exact (conj civil_epoch civil_succ). Qed.
+Print Assumptions T_C14_civil.
+
+Theorem T_C14_civil_valid : forall z, valid_date (civil_from_days z).
+Proof. exact civil_valid. Qed.
+Print Assumptions T_C14_civil_valid.
+
+(* days_from_civil / civil_from_days are mutually inverse on the valid dates, all of Z *)
+Theorem T_C14_days :
+  (forall y m d, valid_date (y, m, d) -> civil_from_days (days_from_civil y m d) = (y, m, d)) /\
+  (forall z, let '(y, m, d) := civil_from_days z in days_from_civil y m d = z).
+Proof. exact (conj civil_of_days_from_civil days_of_civil_from_days). Qed.
+Print Assumptions T_C14_days.
+
+(* the specification pins the function: civil_from_days is THE day numbering of the leap-rule calendar,
+   and Hinnant's day count is the closed form counted from the leap rule *)
+Theorem T_C14_calendar_unique :
+  is_calendar civil_from_days /\ (forall f, is_calendar f -> forall z, f z = civil_from_days z) /\
+  (forall y m d, valid_date (y, m, d) -> days_from_civil y m d = days_of_civil (y, m, d)).
+Proof.
+  split; [exact civil_is_calendar|]. split; [|exact days_from_civil_spec].
+  intros f Hf z. exact (calendar_unique f civil_from_days Hf civil_is_calendar z).
+Qed.
+Print Assumptions T_C14_calendar_unique.
+
+Example T_C14_civil_example : civil_from_days 19782 = (2024, 2, 29) /\ civil_from_days (-719468) = (0, 3, 1).
+Proof. split; vm_compute; reflexivity. Qed.
+Print Assumptions T_C14_civil_example.
+
+(* ---- the date-time a count denotes (spec_datetime is built from the spec calendar through
+        T_C14_calendar_unique; it is valid and denotes exactly t ticks) ---- *)
+Theorem T_C14_spec_datetime : forall P t,
+  valid_datetime (spec_datetime P t) /\ instant_ns (spec_datetime P t) = t * tick_ns P.
+Proof. exact spec_datetime_valid. Qed.
+Print Assumptions T_C14_spec_datetime.
+
+(* ---- T_C14_print, full strength:
+        forall P R t, c14_rep P R -> fits R t = true -> tp_print P R t = Ok (iso_text P (spec_datetime P t))
+      is FALSE of the current code: ---- *)
+Theorem T_C14_print_refuted : exists P R t, c14_rep P R /\ fits R t = true /\
+  tp_print P R t <> Ok (iso_text P (spec_datetime P t)).
+Proof.
+  exists Pns, I64, (-9223372036854775808). split; [left; reflexivity|]. split; [reflexivity|].
+  rewrite w_F30_print. discriminate.
+Qed.
+Print Assumptions T_C14_print_refuted.
+
+Theorem T_C14_print_outside : forall P R t, c14_rep P R -> fits R t = true -> print_defect P R t = false ->
+  tp_print P R t = Ok (iso_text P (spec_datetime P t)).
+Proof. exact tp_print_correct. Qed.
+Print Assumptions T_C14_print_outside.
+
+(* the other two members of the defect class, as observed behaviour *)
+Example T_C14_print_F31 :
+  tp_print Ps I64 (-62198755200) = Ok [45;48;48;49;45;48;49;45;48;49;84;48;48;58;48;48;58;48;48;90]%N /\
+  iso_text Ps (spec_datetime Ps (-62198755200)) = [45;48;48;48;49;45;48;49;45;48;49;84;48;48;58;48;48;58;48;48;90]%N.
+Proof. exact w_F31. Qed.
+Print Assumptions T_C14_print_F31.
+Example T_C14_print_BUF :
+  tp_print Ph I64 9223372036854775807 = Err RuntimeError /\ tp_print Pd I64 9223372036854000000 = UB UBBuffer /\
+  tp_print Pd I64 9223372036854775807 = UB UBOverflow.
+Proof. exact (conj w_BUF_exc (conj w_BUF_ub w_days_overflow)). Qed.
+Print Assumptions T_C14_print_BUF.
+Example T_C14_print_example :
+  print_defect Pms I64 1689374691925 = false /\
+  tp_print Pms I64 1689374691925 = Ok [50;48;50;51;45;48;55;45;49;52;84;50;50;58;52;52;58;53;49;46;57;50;53;90]%N.
+Proof. split; vm_compute; reflexivity. Qed.
+Print Assumptions T_C14_print_example.
+
+(* ---- T_C14_parse_print, full strength:
+        forall P R t, c14_rep P R -> fits R t = true -> exists text, tp_print P R t = Ok text /\ tp_parse P R text = Ok t ---- *)
+Theorem T_C14_parse_print_refuted : exists P R t, c14_rep P R /\ fits R t = true /\
+  ~ (exists text, tp_print P R t = Ok text /\ tp_parse P R text = Ok t).
+Proof.
+  exists Pns, I64, (-9223372036854775808). split; [left; reflexivity|]. split; [reflexivity|].
+  intros (text & H & _). rewrite w_F30_print in H. discriminate.
+Qed.
+Print Assumptions T_C14_parse_print_refuted.
+
+(* outside F30 and the 16-digit years the round trip is exact — including the years -999..-1 *)
+Theorem T_C14_parse_print_outside : forall P R t, c14_rep P R -> fits R t = true -> rt_defect P R t = false ->
+  exists text, tp_print P R t = Ok text /\ tp_parse P R text = Ok t.
+Proof. exact tp_roundtrip. Qed.
+Print Assumptions T_C14_parse_print_outside.
+
+(* the parse half of F30 on its own: a documented text of a representable instant is rejected *)
+Example T_C14_parse_F30 : tp_parse Pns I64 text_F30 = Err OutOfRange.
+Proof. exact w_F30_parse. Qed.
+Print Assumptions T_C14_parse_F30.
+
+(* ---- T_C14_bin_ts (after the F07 repair): value -> CBinTimestamp is (floor seconds, nanoseconds in
+        0..999999999) of the instant, and both reverse conversions give the value back, for every
+        representable value of int64 / int32 / uint64 representations of every precision whose seconds
+        fit the timestamp's int64 ---- *)
+Theorem T_C14_bin_ts : forall P R t, rep3 R -> fits R t = true ->
+  fits I64 (fst (ts_of_ns (t * tick_ns P))) = true ->
+  ts_to P R t = Ok (ts_of_ns (t * tick_ns P)) /\
+  0 <= snd (ts_of_ns (t * tick_ns P)) <= 999999999 /\
+  ts_from_tp P R (fst (ts_of_ns (t * tick_ns P))) (snd (ts_of_ns (t * tick_ns P))) = Ok t /\
+  ts_from_dur P R (fst (ts_of_ns (t * tick_ns P))) (snd (ts_of_ns (t * tick_ns P))) = Ok t.
+Proof.
+  intros P R t HR Ht Hs.
+  assert (HR4 : rep4 R) by (destruct HR as [->|[->| ->]]; unfold rep4; auto).
+  split; [apply ts_to_ok; assumption|].
+  split; [pose proof (ts_of_ns_range (t * tick_ns P)) as H; destruct (ts_of_ns (t * tick_ns P)); cbn [snd]; tauto|].
+  apply ts_from_roundtrip; assumption.
+Qed.
+Print Assumptions T_C14_bin_ts.
+
+Example T_C14_bin_ts_example :
+  ts_to Pns I64 (-500000000) = Ok (-1, 500000000) /\ ts_from_tp Pns I64 (-1) 500000000 = Ok (-500000000) /\
+  ts_to Pns I64 (-9223372036854775808) = Ok (-9223372037, 145224192) /\
+  ts_from_dur Pns I64 (-9223372037) 145224192 = Ok (-9223372036854775808).
+Proof. repeat split; vm_compute; reflexivity. Qed.
+Print Assumptions T_C14_bin_ts_example.
